@@ -76,7 +76,11 @@ def main():
         lines[i] = (rep + before) if kind == "del" else before[:a] + rep + before[b:]
         open(p, "w").write("\n".join(lines))
         t0 = time.time()
-        rc, o = sh("cargo test --workspace --no-fail-fast --offline 2>&1 | grep -E '^test result|^error' ", cwd=WT, env=env)
+        try:
+            rc, o = sh("timeout 900 cargo test --workspace --no-fail-fast --offline 2>&1 | grep -E '^test result|^error' ", cwd=WT, env=env, timeout=1000)
+        except subprocess.TimeoutExpired:
+            o = "error: test suite hangs"
+            sh("pkill -f /tmp/mut_wt%s/target" % MID)
         passed = sum(int(x) for x in re.findall(r"(\d+) passed", o)); failed = sum(int(x) for x in re.findall(r"(\d+) failed", o))
         rec = {"file": f, "line": i + 1, "kind": kind, "before": before.strip(), "after": lines[i].strip(), "tests": "pass" if (passed == 34 and failed == 0 and "error" not in o) else "killed"}
         if rec["tests"] == "pass":
